@@ -166,10 +166,10 @@ func TestC12(t *testing.T) { RunProperty(t, cfgC12) }
 var cfgC17 = reg(PropCfg{
 	ID: "C17",
 	Profile: &Profile{Weights: mixedWeights(), MinBlocks: 8, MaxBlocks: 40, MaxTxs: 4, MaxOps: 2, PUpper: 4, PActor: 5, PNamed: 1, PFault: 2, PExec: 5,
-		PGovParams: 0, PBadRef: 3, Vesting: true, TinyLimits: true, ValidParams: true, BigAmounts: true},
+		PGovParams: 0, PBadRef: 3, Vesting: true, TinyLimits: true, ValidParams: true, BigAmounts: true, ManyDenoms: true},
 	Rule: "history reaching a committed state with 0 < locked < supply, >= 3 denominations and a page limit below the number of denominations (>= 2 pages)",
 	NonTrivial: func(w *World) bool { return w.Classes["c17.locked-partial"] > 0 && w.Classes["c17.multi-page-3-denoms"] > 0 },
-	MinClasses: map[string]int{"c17.locked-partial": 20, "c17.multi-page-3-denoms": 50},
+	MinClasses: map[string]int{"c17.locked-partial": 20, "c17.multi-page-3-denoms": 50, "c17.reverse-page-from-key-above-native": 50},
 	Assume:     []string{"figures are read through the ABCI Query route on committed state; HTTP route precedence of the REST gateway is not exercised", "page plans (limit, key/offset, count_total, reverse) cycle deterministically with the block height"},
 })
 
@@ -192,7 +192,7 @@ var cfgC13 = reg(PropCfg{
 	Profile: &Profile{Weights: map[string]int{EntRaise: 8, EntDecide: 12, EntWL: 6, WrkReg: 5, WrkRec: 9, WrkPur: 4, BcnReg: 5, BcnRec: 8, BcnPur: 4,
 		StrCreate: 8, StrClaim: 8, StrTopUp: 4, StrUpdate: 4, StrCancel: 4, ParamsEnt: 2, ParamsWrk: 2, ParamsBcn: 2, ParamsStr: 2, BankSend: 2},
 		MinBlocks: 8, MaxBlocks: 35, MaxTxs: 5, MaxOps: 2, PUpper: 8, PActor: 30, PNamed: 12, PFault: 6, PExec: 14, PGovParams: 6, PBadRef: 3,
-		TinyLimits: true, MultiPct: 5, PFeePayer: 5},
+		TinyLimits: true, MultiPct: 10, PFeePayer: 5, PForward: 40, PRetry: 5},
 	Rule: "history containing >=1 attempt by an unentitled party on a live target (the same message would be meaningful for the entitled party); distinct by scenario hash",
 	NonTrivial: func(w *World) bool { return w.Classes["c13.attempt-on-live-target"] > 0 },
 	MinClasses: map[string]int{"c13.attempt-on-live-target": 200, "c13.entitled-control-ok": 500, "c13.attempt.exec-without-grant": 20, "c13.attempt.names-other-account": 20, "c13.control-via-grant": 3},
